@@ -97,8 +97,16 @@ def _condition_true(cond, records):
     if isinstance(cond, cirq.KeyCondition):
         return key_int(cond.key, cond.index) != 0
     if isinstance(cond, cirq.SympyCondition):
+        # documented meaning: a plain symbol is the integer value of the key's latest record, an indexed symbol k[i] its i-th digit
+        expr = cond.expr
+        for ix in [x for x in expr.atoms(sympy.Indexed)]:
+            try:
+                bits = records[str(ix.base.label)][-1]
+            except (KeyError, IndexError):
+                raise ControlBeforeMeasurement(f"classical control on {ix.base.label!s} evaluated before that key was measured")
+            expr = expr.xreplace({ix: sympy.Integer(bits[int(ix.indices[0])][0])})
         subs = {sympy.Symbol(str(k)): key_int(k) for k in cond.keys}
-        return bool(cond.expr.subs(subs))
+        return bool(expr.xreplace({s_: sympy.Integer(v) for s_, v in subs.items()}))
     if type(cond).__name__ == "BitMaskKeyCondition":
         v = key_int(cond.key, cond.index)
         if cond.bitmask is not None:
